@@ -1471,7 +1471,10 @@ class FuncAnalysis:
             self.write(recv, "[]", node, "mutator:" + name)
             if name in ("append", "add", "insert", "extend", "update",
                         "setdefault"):
-                v = join(args)
+                # (the key of setdefault / the position of insert is not
+                # stored as an element)
+                v = join(args[1:]) if name in ("setdefault", "insert") \
+                    else join(args)
                 if name in ("extend", "update"):
                     v = deref(v, "[]")
                 self.grow(node.func.value, recv, v)
